@@ -98,11 +98,13 @@ def solve_poly(coefs, stratum):
 def solve_model(coefs, stratum):
     """transcription: impl vs the Float instantiation of the Lean model (quadratic, cubic)"""
     deg = len(coefs) - 1
-    name = {2: 'quadratic', 3: 'cubic'}[deg]
+    name = {2: 'quadratic', 3: 'cubic', 4: 'quartic'}[deg]
     line = f'solve.{name} {H(*coefs)}'
 
     def judge(o):
         i, f = o['I'][0], o['F'][0]
+        if f == 'GENERAL':
+            return None          # the LDL^T path is not modelled
         if engine_error(i, f):
             return f'engine error {i} / {f}'
         lead = [c for c in coefs if c != 0.0][-1:] or [1.0]
@@ -197,6 +199,16 @@ def generate(rng, tier):
                 yield solve_poly(co2, f'leading-{lead:g}-deg{deg}')
                 if deg < 4:
                     yield solve_model(co2, f'leading-{lead:g}-deg{deg}')
+        # sparse polynomials: small integer coefficients, each inner coefficient zero with probability 1/2 (x^4 - 1, x^4 + c x + d, depressed forms)
+        for deg in (2, 3, 4):
+            cs = [float(rng.randint(-40, 40)) for _ in range(deg + 1)]
+            for k in range(1, deg):
+                if rng.random() < 0.5:
+                    cs[k] = 0.0
+            if cs[deg] == 0.0:
+                cs[deg] = 1.0
+            yield solve_poly(cs, f'sparse-deg{deg}')
+            yield solve_model(cs, f'sparse-deg{deg}')
         # double / triple roots and degenerate
         r = float(rng.randint(-9, 9))
         yield solve_poly([r * r, -2 * r, 1.0], 'double-root')
